@@ -309,6 +309,16 @@ pub fn pool(api: &MockApi, n: usize) -> Vec<Addr> {
 
 pub const INVALID_ADDR: &str = "NotAnAddress";
 
+/// A string that is almost `a`: `a` without its last character, only its first half, or `a` plus one character.
+pub fn near_miss(rng: &mut Rng, a: &str) -> cosmwasm_std::Addr {
+    let n = a.len();
+    cosmwasm_std::Addr::unchecked(match rng.below(3) {
+        0 if n > 1 => a[..n - 1].to_string(),
+        1 if n > 3 => a[..n / 2].to_string(),
+        _ => format!("{a}q"),
+    })
+}
+
 /// An address literal that `addr_validate` refuses: plain garbage, or a pool address written in upper case (bech32
 /// decodes it, but it is not the normalised spelling — code that "helpfully" lower-cases first would accept it and
 /// meet the lower-case spelling of the same account).
